@@ -190,6 +190,12 @@ def run(ctx, eng):
                 head_bad.append('a HEAD path ends with expected length %s'
                                 % (cm.show0(ws[-1].value) if ws else
                                    'unset'))
+        elif any(e.value == T.C(0) for e in ws):
+            # no body is expected of a HEAD response only: a block of another
+            # kind that pins the length to 0 holds every later block without
+            # a content-length of its own to an empty body
+            head_bad.append('a path that is not a HEAD response forces the '
+                            'expected length to 0')
         found = any(c.endswith("== b'content-length')") or
                     c.startswith("(b'content-length' ==") for c in conds)
         for e in ws:
